@@ -8,7 +8,7 @@ import itertools
 import math
 from typing import Any, Dict
 
-from .abseval import Unsupported, Obj, Mat, Vec, Sym, Lin, OnceIter, AbsRaise
+from .abseval import Unsupported, Obj, Mat, Vec, Sym, Lin, OnceIter, AbsRaise, norm_dtype, check_dtype
 from .npmodel import Cube, GraphObj
 from .instances import Runtime, Instance, ExternalFunc
 
@@ -46,6 +46,18 @@ def deep(v, memo=None):
 
 class CounterObj(dict):
     pass
+
+
+class RandomPolicy:
+    """Which item of its range every random draw returns: "first", "last" or "middle"; `log` keeps the range sizes."""
+
+    def __init__(self):
+        self.mode = "first"
+        self.log = []
+
+    def index(self, n: int) -> int:
+        self.log.append(("draw", n))
+        return 0 if self.mode == "first" else (n - 1 if self.mode == "last" else n // 2)
 
 
 def install(rt: Runtime) -> Runtime:
@@ -143,6 +155,7 @@ def install(rt: Runtime) -> Runtime:
         [tuple(t) for t in itertools.combinations_with_replacement(seq_of(seq), r)]))
     ex["itertools.chain"] = fn(lambda *seqs: OnceIter([x for q in seqs for x in seq_of(q)]))
     ex["itertools.chain.from_iterable"] = fn(lambda seqs: OnceIter([x for q in seq_of(seqs) for x in seq_of(q)]))
+    ex["itertools.chain"].attrs = {"from_iterable": ex["itertools.chain.from_iterable"]}
     ex["itertools.islice"] = fn(lambda seq, *a: OnceIter(list(itertools.islice(seq_of(seq), *a))))
     ex["itertools.repeat"] = fn(lambda v, n: OnceIter([v] * n))
     ex["itertools.zip_longest"] = fn(lambda *seqs, fillvalue=None: OnceIter(
@@ -217,9 +230,14 @@ def install(rt: Runtime) -> Runtime:
     ex["functools.cache"] = fn(lambda f: f)
 
     class DefaultDict(dict):
-        """collections.defaultdict: a missing key read through [] is created with the factory"""
-        factory = None
-        ctx = None
+        """collections.defaultdict: a missing key read through [] is created with the factory (see Evaluator._e_Subscript)"""
+        default_factory = None
+
+    def defaultdict(factory=None, *a, **k):
+        d = DefaultDict(*a, **k)
+        d.default_factory = factory
+        return d
+    ex["collections.defaultdict"] = fn(defaultdict)
     ex["collections.OrderedDict"] = fn(lambda *a, **k: dict(*[seq_of(x) if not isinstance(x, dict) else x for x in a], **k))
     ex["collections.deque"] = fn(lambda it=(), maxlen=None: list(seq_of(it)))
     ex["operator.attrgetter"] = fn(lambda name: ExternalFunc(lambda a, k, ev, node: ev.getattr_value(a[0], name, node)))
@@ -294,9 +312,10 @@ def install(rt: Runtime) -> Runtime:
 
     # ---- numpy slice ----------------------------------------------------------------------------------------
     def np_full(shape, value, dtype=None):
-        r = np_full0(shape, value)
-        if isinstance(r, (Mat, Vec)) and isinstance(dtype, str):
-            r.dtype = dtype
+        dt = norm_dtype(dtype)
+        r = np_full0(shape, check_dtype(dt, value, None))
+        if isinstance(r, (Mat, Vec)) and isinstance(dt, str):
+            r.dtype = dt
         return r
 
     def np_full0(shape, value, dtype=None):
@@ -319,6 +338,15 @@ def install(rt: Runtime) -> Runtime:
         return np_full(shape, 1, dtype)
 
     def np_asarray(v, dtype=None):
+        dt = norm_dtype(dtype)
+        if isinstance(dt, str) and not isinstance(v, (Sym, Cube)):
+            if isinstance(v, (Mat, Vec)):
+                cells = v.vals if isinstance(v, Vec) else [x for r in v.rows for x in r]
+                same = v.dtype == dt or (v.dtype is None and all(check_dtype(dt, x, None) is x or
+                                                                 (type(check_dtype(dt, x, None)) is type(x)) for x in cells))
+                if same:
+                    return v            # no conversion needed: the same array
+            return np_array(v, dt)
         if isinstance(v, (Mat, Vec, Sym, Cube)):
             return v
         if isinstance(v, list):
@@ -329,8 +357,10 @@ def install(rt: Runtime) -> Runtime:
 
     def np_max(v):
         vals = v.vals if isinstance(v, Vec) else v
+        if isinstance(v, Mat):
+            vals = [x for r in v.rows for x in r]
         if not vals:
-            raise Unsupported("max of empty array")
+            raise ValueError("zero-size array to reduction operation maximum which has no identity")
         return max(vals)
 
     def np_sum(v, axis=None):
@@ -360,7 +390,14 @@ def install(rt: Runtime) -> Runtime:
             out.append(tot)
         return Vec(out)
 
-    def np_concatenate(parts):
+    def np_concatenate(parts, axis=0):
+        parts = list(parts.abs_iter()) if hasattr(parts, "abs_iter") else list(parts)
+        if not parts:
+            raise ValueError("need at least one array to concatenate")
+        if any(isinstance(p_, Mat) for p_ in parts):
+            if not all(isinstance(p_, Mat) for p_ in parts) or axis not in (0,):
+                raise Unsupported("concatenate of matrices along this axis")
+            return Mat([list(r) for p_ in parts for r in p_.rows])
         out = []
         for p_ in parts:
             out.extend(p_.vals if isinstance(p_, Vec) else list(p_))
@@ -378,16 +415,21 @@ def install(rt: Runtime) -> Runtime:
 
     def np_array(v, dtype=None):
         r = np_asarray(v)
+        dt = norm_dtype(dtype)
         if isinstance(r, Vec):
-            return Vec(list(r.vals))
+            out = Vec([check_dtype(dt, x, None) for x in r.vals])
+            out.dtype = dt if isinstance(dt, str) else r.dtype
+            return out
         if isinstance(r, Mat):
-            return Mat([list(x) for x in r.rows])
+            out = Mat([[check_dtype(dt, x, None) for x in row] for row in r.rows])
+            out.dtype = dt if isinstance(dt, str) else r.dtype
+            return out
         return r
 
     def np_min(v):
-        vals = v.vals if isinstance(v, Vec) else list(v)
+        vals = v.vals if isinstance(v, Vec) else ([x for r in v.rows for x in r] if isinstance(v, Mat) else list(v))
         if not vals:
-            raise Unsupported("min of empty array")
+            raise ValueError("zero-size array to reduction operation minimum which has no identity")
         return min(vals)
 
     def np_where(v, *alt):
@@ -420,7 +462,14 @@ def install(rt: Runtime) -> Runtime:
                 raise Unsupported("vstack operand")
         return Mat(rows)
 
-    def np_argsort(v, kind=None):
+    def np_argsort(v, axis=-1, kind=None):
+        if isinstance(v, Mat):
+            if axis in (-1, 1):
+                return Mat([sorted(range(len(r)), key=lambda i, r=r: r[i]) for r in v.rows])
+            if axis == 0:
+                cols = [sorted(range(len(c)), key=lambda i, c=c: c[i]) for c in zip(*v.rows)]
+                return Mat([list(r) for r in zip(*cols)])
+            raise Unsupported("argsort axis")
         vals = v.vals if isinstance(v, Vec) else list(v)
         return Vec(sorted(range(len(vals)), key=lambda i: vals[i]))
 
@@ -489,10 +538,153 @@ def install(rt: Runtime) -> Runtime:
     ex["math.inf"] = float("inf")
     ex["math.fabs"] = fn(lambda x: abs(x))
     ex["math.isclose"] = fn(lambda x, y, rel_tol=1e-09, abs_tol=0.0: abs(x - y) <= max(rel_tol * max(abs(x), abs(y)), abs_tol))
-    ex["random.shuffle"] = fn(lambda seq: seq.reverse())
-    ex["random.random"] = fn(lambda: 0.5)
-    ex["random.randint"] = fn(lambda a, b: a)
-    ex["random.sample"] = fn(lambda seq, k: list(seq)[:k])
+    # ---- sources of randomness: every draw goes through one policy (first / last / middle item of the range), so a
+    # rule can evaluate the same code under several draws; the argument checks of the real functions are kept
+    pol = rt.random = RandomPolicy()
+
+    def seq_items(seq):
+        if isinstance(seq, Vec):
+            return list(seq.vals)
+        if isinstance(seq, int) and not isinstance(seq, bool):
+            return list(range(seq))
+        if isinstance(seq, (set, frozenset, dict)):
+            raise TypeError("population must be a sequence")
+        return list(seq.abs_iter()) if hasattr(seq, "abs_iter") else list(seq)
+
+    def r_choice(seq, size=None, replace=True, p=None):
+        items = seq_items(seq)
+        if not items:
+            raise IndexError("cannot choose from an empty sequence")
+        if size is not None:
+            return Vec([items[pol.index(len(items))] for _ in range(size)])
+        return items[pol.index(len(items))]
+
+    def np_choice(seq, size=None, replace=True, p=None):
+        items = seq_items(seq)
+        if not items:
+            raise ValueError("a cannot be empty")
+        return r_choice(items, size)
+
+    def r_randint(a, b):
+        if b < a:
+            raise ValueError("empty range for randint")
+        return a + pol.index(b - a + 1)
+
+    def r_randrange(a, b=None, step=1):
+        if b is None:
+            a, b = 0, a
+        n = len(range(a, b, step))
+        if n <= 0:
+            raise ValueError("empty range for randrange")
+        return a + step * pol.index(n)
+
+    def np_integers(low, high=None, size=None, dtype=None, endpoint=False):
+        if high is None:
+            low, high = 0, low
+        if endpoint:
+            high = high + 1
+        if high <= low:
+            raise ValueError("low >= high")
+        if size is not None:
+            return Vec([low + pol.index(high - low) for _ in range(size)])
+        return low + pol.index(high - low)
+
+    def r_shuffle(seq):
+        cells = seq.vals if isinstance(seq, Vec) else seq
+        if pol.mode != "first":
+            cells.reverse()
+        pol.log.append(("shuffle", len(cells)))
+
+    def r_permutation(seq):
+        items = seq_items(seq)
+        if pol.mode != "first":
+            items.reverse()
+        pol.log.append(("shuffle", len(items)))
+        return Vec(items)
+
+    def r_sample(seq, k):
+        items = seq_items(seq)
+        if not 0 <= k <= len(items):
+            raise ValueError("Sample larger than population or is negative")
+        if pol.mode != "first":
+            items.reverse()
+        return items[:k]
+
+    def r_random(size=None):
+        v = {"first": 0.0, "last": 1.0 - 2.0 ** -53, "middle": 0.5}[pol.mode]
+        pol.log.append(("random", v))
+        return v if size is None else Vec([v] * size)
+
+    def r_uniform(a=0.0, b=1.0, size=None):
+        return a + (b - a) * r_random()
+    ex["random.choice"] = fn(lambda seq: r_choice(seq))
+    ex["random.shuffle"] = fn(r_shuffle)
+    ex["random.random"] = fn(lambda: r_random())
+    ex["random.uniform"] = fn(r_uniform)
+    ex["random.randint"] = fn(r_randint)
+    ex["random.randrange"] = fn(r_randrange)
+    ex["random.sample"] = fn(r_sample)
+    ex["random.seed"] = fn(lambda *a, **k: None)
+    ex["numpy.random.seed"] = fn(lambda *a, **k: None)
+    ex["numpy.random.randint"] = fn(np_integers)
+    def r_stream(k):
+        # k distinct values of [0, 1) in no particular order (an array of independent draws)
+        pol.log.append(("random", k))
+        base = {"first": 0.0, "last": 0.5, "middle": 0.25}[pol.mode]
+        return [(base + (i + 1) * 0.6180339887498949) % 1.0 for i in range(k)]
+
+    def np_rand(*shape):
+        if not shape:
+            return r_random()
+        if len(shape) == 1:
+            return Vec(r_stream(shape[0]))
+        if len(shape) == 2:
+            vals = r_stream(shape[0] * shape[1])
+            return Mat([vals[i * shape[1]:(i + 1) * shape[1]] for i in range(shape[0])])
+        raise Unsupported("random array of more than two dimensions")
+    ex["numpy.random.rand"] = fn(np_rand)
+    ex["numpy.random.random"] = fn(r_random)
+    ex["numpy.random.random_sample"] = fn(r_random)
+    ex["numpy.random.uniform"] = fn(r_uniform)
+    ex["numpy.random.choice"] = fn(np_choice)
+    ex["numpy.random.shuffle"] = fn(r_shuffle)
+    ex["numpy.random.permutation"] = fn(r_permutation)
+
+    def rng_object(kind):
+        def make(*a, **k):
+            m = {"random": lambda ev, call, args, kw: r_random(*args, **kw),
+                 "uniform": lambda ev, call, args, kw: r_uniform(*args, **kw),
+                 "shuffle": lambda ev, call, args, kw: r_shuffle(*args),
+                 "permutation": lambda ev, call, args, kw: r_permutation(*args),
+                 "seed": lambda ev, call, args, kw: None}
+            if kind == "python":
+                m.update(choice=lambda ev, call, args, kw: r_choice(*args), randint=lambda ev, call, args, kw: r_randint(*args),
+                         randrange=lambda ev, call, args, kw: r_randrange(*args, **kw),
+                         sample=lambda ev, call, args, kw: r_sample(*args, **kw))
+            else:
+                m["random"] = lambda ev, call, args, kw: (np_rand(*(args[0] if isinstance(args[0], tuple) else (args[0],)))
+                                                          if args or kw.get("size") else r_random())
+                m.update(choice=lambda ev, call, args, kw: np_choice(*args, **kw),
+                         integers=lambda ev, call, args, kw: np_integers(*args, **kw),
+                         randint=lambda ev, call, args, kw: np_integers(*args, **kw),
+                         rand=lambda ev, call, args, kw: r_random())
+
+            def guarded(f):
+                def g(ev, call, args, kw):
+                    try:
+                        return f(ev, call, args, kw)
+                    except (Unsupported, AbsRaise):
+                        raise
+                    except (KeyError, IndexError, ValueError, TypeError) as exc:
+                        raise AbsRaise(type(exc).__name__, call)
+                return g
+            return Obj("RNG", {}, {k_: guarded(f_) for k_, f_ in m.items()})
+        return make
+    ex["random.Random"] = fn(rng_object("python"))
+    ex["random.SystemRandom"] = fn(rng_object("python"))
+    ex["numpy.random.default_rng"] = fn(rng_object("numpy"))
+    ex["numpy.random.RandomState"] = fn(rng_object("numpy"))
+    ex["numpy.random.Generator"] = "Generator"
 
     def np_searchsorted(a, v, side="left", sorter=None):
         import bisect
@@ -557,7 +749,23 @@ def install(rt: Runtime) -> Runtime:
         return Vec(out)
     ex["numpy.bincount"] = fn(np_bincount)
 
-    def np_unique2(v, return_counts=False, return_inverse=False, return_index=False):
+    def np_unique2(v, return_counts=False, return_inverse=False, return_index=False, axis=None):
+        if axis == 0 and isinstance(v, Mat):
+            rows = [tuple(r) for r in v.rows]
+            u = sorted(set(rows))
+            out = [Mat([list(r) for r in u])]
+            if return_index:
+                out.append(Vec([rows.index(r) for r in u]))
+            if return_inverse:
+                out.append(Vec([u.index(r) for r in rows]))
+            if return_counts:
+                out.append(Vec([rows.count(r) for r in u]))
+            return out[0] if len(out) == 1 else tuple(out)
+        if axis not in (None, 0):
+            raise Unsupported("unique along this axis")
+        return np_unique1(v, return_counts, return_inverse, return_index)
+
+    def np_unique1(v, return_counts=False, return_inverse=False, return_index=False):
         xs = vals_of(v) if not isinstance(v, Mat) else [x for r in v.rows for x in r]
         u = sorted(set(xs))
         out = [Vec(u)]
@@ -623,6 +831,19 @@ def install(rt: Runtime) -> Runtime:
     ex["numpy.shape"] = fn(np_shape)
     ex["numpy.logical_and"] = fn(np_logical(lambda x, y: bool(x) and bool(y)))
     ex["numpy.logical_or"] = fn(np_logical(lambda x, y: bool(x) or bool(y)))
+    ex["numpy.logical_xor"] = fn(np_logical(lambda x, y: bool(x) != bool(y)))
+
+    def np_logical_not(a):
+        if isinstance(a, Mat):
+            return Mat([[not bool(x) for x in r] for r in a.rows])
+        if isinstance(a, Vec):
+            return Vec([not bool(x) for x in a.vals])
+        if isinstance(a, (bool, int, float)):
+            return not bool(a)
+        raise Unsupported("logical_not operand")
+    ex["numpy.logical_not"] = fn(np_logical_not)
+    ex["numpy.invert"] = fn(np_logical_not)
+    ex["numpy.transpose"] = fn(lambda m: Mat([list(c) for c in zip(*m.rows)]) if isinstance(m, Mat) else m)
     ex["numpy.column_stack"] = fn(np_column_stack)
     ex["numpy.newaxis"] = None
 
